@@ -25,7 +25,8 @@ Obs == [set   |-> set,
         busy  |-> loop # "idle",
         quiet |-> Quiescent,
         ok    |-> [hardLimit |-> HardLimit, inSetConnected |-> InSetConnected, inOrder |-> ReportedInOrder,
-                   view |-> ViewConsistent, stranded |-> NoStrandedWaiter, prot |-> ProtectedInSetOrPending]]
+                   view |-> ViewConsistent, stranded |-> NoStrandedWaiter, prot |-> ProtectedInSetOrPending,
+                   dial |-> \A w \in Workers : wk[w].pc = "gDial" => ~HasBackoff(wk[w].p)]]
 
 InitB == Init /\ hist = <<>>
 NextB == /\ Next
